@@ -82,6 +82,13 @@ def check(ctx):
                     recs[i] = [val] * 48
                 buf = [0, 5, 0, cnt] + [rng.randrange(256) for _ in range(20)] + [o for r in recs for o in r]
                 jobs.append({"msgs": [{"exp": exps[0], "buf": buf}], "want_json": True})
+    # two export packets glued together (a relay that coalesces, the same packet twice): what follows the announced records
+    # is not part of the message, whatever it looks like
+    whole = [c["buf"] for c in cases if c["ver"] == 5 and c["tail"] == "exact" and c["carried"] == c["cnt"] and c["cnt"] in (1, 2, 3, 15)]
+    for a in whole[:6]:
+        for b in whole[:6]:
+            if len(a) + len(b) <= 1464:
+                jobs.append({"msgs": [{"exp": exps[0], "buf": a + b}], "want_json": True})
     res = flowjobs.run_jobs(ctx, drv, "TestVerifNF5Jobs", jobs, tag="v5")
     rows = []
     for job, x in zip(jobs, res):
